@@ -26,7 +26,7 @@ def _write_ws(src):
             ents = sorted((e for e in os.listdir(root) if e.startswith("ws-")), key=lambda e: _mtime(os.path.join(root, e)))
             for e in ents[:-8]:
                 # never remove a workspace another check may be building right now
-                if time.time() - _mtime(os.path.join(root, e)) > 3600:
+                if time.time() - _mtime(os.path.join(root, e)) > 1500:
                     shutil.rmtree(os.path.join(root, e), ignore_errors=True)
         except OSError:
             pass
